@@ -75,41 +75,55 @@ static inline unsigned long long round_up_to_power_of_two(unsigned long long i)
 /******************************************************************************/
 // round_down_to_power_of_two()
 
+//! round n down to the largest power of two not greater than n (zero for
+//! n <= 0), computed from the highest set bit so that values in the upper
+//! half of the type's range are handled, too.
+template <typename Integral>
+static inline Integral round_down_to_power_of_two_template(Integral n)
+{
+    if (n <= 0)
+        return 0;
+    Integral r = 1;
+    while ((n >>= 1) != 0)
+        r <<= 1;
+    return r;
+}
+
 //! does what it says: round down to next power of two
 static inline int round_down_to_power_of_two(int i)
 {
-    return round_up_to_power_of_two(i + 1) >> 1;
+    return round_down_to_power_of_two_template(i);
 }
 
 //! does what it says: round down to next power of two
 static inline unsigned int round_down_to_power_of_two(unsigned int i)
 {
-    return round_up_to_power_of_two(i + 1) >> 1;
+    return round_down_to_power_of_two_template(i);
 }
 
 //! does what it says: round down to next power of two
 static inline long round_down_to_power_of_two(long i)
 {
-    return round_up_to_power_of_two(i + 1) >> 1;
+    return round_down_to_power_of_two_template(i);
 }
 
 //! does what it says: round down to next power of two
 static inline unsigned long round_down_to_power_of_two(unsigned long i)
 {
-    return round_up_to_power_of_two(i + 1) >> 1;
+    return round_down_to_power_of_two_template(i);
 }
 
 //! does what it says: round down to next power of two
 static inline long long round_down_to_power_of_two(long long i)
 {
-    return round_up_to_power_of_two(i + 1) >> 1;
+    return round_down_to_power_of_two_template(i);
 }
 
 //! does what it says: round down to next power of two
 static inline unsigned long long round_down_to_power_of_two(
     unsigned long long i)
 {
-    return round_up_to_power_of_two(i + 1) >> 1;
+    return round_down_to_power_of_two_template(i);
 }
 
 //! \}
